@@ -53,7 +53,19 @@ def composition(rng, n, style=None):
     return out
 
 
+def blocks(n, size):
+    return [size] * (n // size) + ([n % size] if n % size else [])
+
+
 def generate(rng, tier) -> dict:
+    if rng.random() < (0.001 if tier == "quick" else 0.004):
+        # a LONG stream (counts beyond 2^16 / 2^24, where a narrow counter or a float32 running sum gives out)
+        n = rng.choice([(1 << 16) + 3, (1 << 16) + 3, (1 << 24) + 7])
+        k = rng.choice([1, n // 3, n - 1])
+        size = rng.choice([1 << 12, 1 << 16, 1000003])
+        return {"n": n, "nchans": 1, "mode": rng.choice(["basic", "full"]), "family": rng.choice(["onebit", "smallint", "gauss", "gauss-bigmean"]),
+                "dseed": rng.randrange(1 << 30), "chunks": blocks(n, size), "k": k, "chunks_a": blocks(k, size), "chunks_b": blocks(n - k, size),
+                "order": rng.choice(["ab", "ba", "a+=b"]), "tail": 0, "chunks_c": [1], "reuse": rng.random() < 0.4, "long": True}
     n = rng.choice([1, 2, 3, rng.randint(1, 30), rng.randint(1, 400 if tier == "quick" else 2000)])
     nch = rng.randint(1, 6)
     k = rng.choice([1, n - 1, rng.randint(1, max(1, n - 1))]) if n >= 2 else 0
@@ -226,6 +238,10 @@ def execute(sc, ctx) -> None:
     x = make_data(sc)
     n, mode = sc["n"], sc["mode"]
     tr = truth(x)
+    if sc.get("long"):
+        ctx.probe("long-stream(>2^16-samples)")
+        if n > (1 << 24):
+            ctx.probe("long-stream(>2^24-samples)")
     REUSE[0] = bool(sc.get("reuse"))
     if REUSE[0]:
         ctx.probe("chunks-handed-over-in-one-reused-buffer")
